@@ -15,7 +15,10 @@ and without sym_name, gpu.module, func.func public/private/nested with and witho
 plain test.op with decoy sym_name attributes, multi-region / multi-block ops, non-table roots, the same name in
 different tables; 25% of the trees may repeat a name inside one table) x every start op x generated
 references (existing chains, chains through non-tables and private symbols, missing names; str / StringAttr /
-SymbolRefAttr forms).  Oracle (independent of the model): set-based brute force of the statement -- nearest
+SymbolRefAttr forms); (c) depth-3+ chains module{module @a{module @b{@c}}} with decoys: every visibility of
+a, b, c (b also gpu.module / non-table, c also a module) x 2- and 3-component references x every start op, plus
+seeded random spines of 3-5 nested tables with references along the spine from every level -- the family that
+exercises private INTERMEDIATE tables (count reported as deep_chains).  Oracle (independent of the model): set-based brute force of the statement -- nearest
 enclosing table by walking up the description, first component among its children, every further component
 among the children of a previous result that is a symbol table, private results dropped; the returned op must
 be in that set (None iff empty); with unique names per table the collection must agree with the direct lookup.
@@ -442,6 +445,32 @@ def recorded_defect_result(case):
     return [] if r is None else [preorder_index(tree)[tuple(r)]]
 
 
+def private_intermediate(case):
+    """the reference has >= 3 components, every component exists along first matches through symbol tables, the
+    LAST one is not private, and some MIDDLE component names a private symbol (so only the refusal of private
+    intermediates makes the lookup from this start op return nothing)"""
+    tree = case["tree"]
+    form, root, nested = case["ref"]
+    if form != "ref" or len(nested) < 2:
+        return False
+    tp = nearest_table_path(tree, list(case["start"]))
+    if tp is None:
+        return False
+    cur, priv_mid = tp, False
+    for k, m in enumerate([root] + list(nested)):
+        if not is_table(node_at(tree, cur)):
+            return False
+        nxt = [list(cur) + [i] for i, kid in enumerate(kids_of(node_at(tree, cur))) if sym_name_of(kid) == m]
+        if not nxt:
+            return False
+        cur = nxt[0]
+        if 0 < k < len(nested) and is_private(node_at(tree, cur)):
+            priv_mid = True
+        if k == len(nested) and is_private(node_at(tree, cur)):
+            return False
+    return priv_mid
+
+
 def known(case, res):
     """A failing case belongs to a known finding only if traits.SymbolTable.lookup_symbol is the ONLY entry
     point that violates the statement, it returned exactly the op the recorded defect returns, and the first reason
@@ -687,6 +716,59 @@ def gen_refs(rng, tree, count):
     return refs
 
 
+def chain_trees(full=True):
+    """module { func private @s1 ; module @s0 <va> { func @s0 ; <b> @s1 <vb> { <c> @s0 <vc> } } }: every visibility of
+    the three spine symbols (absent / private / nested), b a builtin.module, a gpu.module or a non-table symbol op,
+    c a func or a module; the decoys carry the names of b and c one level too high."""
+    out = []
+    for bkind, ckind in (("module", "func"), ("gpumod", "func"), ("module", "module"), ("symop", "func")):
+        for va, vb, vc in itertools.product((0, 1, 2), repeat=3):
+            if bkind != "module" or ckind != "func":
+                if va != 0 and (full is False or (bkind, ckind) != ("gpumod", "func")):
+                    continue        # all 27 for the main shape (thorough: and gpu.module); 9 for the others
+            c = [ckind, 0, vc, [[[]]] if ckind == "module" else []]
+            b = [bkind, 1, vb, [[[c]]]]
+            a = ["module", 0, va, [[[["func", 0, 0, []], b]]]]
+            out.append(["module", -1, 0, [[[["func", 1, 1, []], a]]]])
+    return out
+
+
+CHAIN_REFS = [["ref", 0, [1, 0]], ["ref", 0, [1]], ["ref", 1, [0]], ["ref", 0, [1, 1]], ["ref", 0, [0]]]
+
+
+def gen_spine(rng):
+    """a spine of 3-5 nested symbol tables (now and then a non-table) with random visibilities, decoy siblings
+    re-using the spine's names at the wrong level -> (tree, references along the spine from every level)"""
+    depth = rng.randint(3, 5)
+    names = [rng.randrange(3) for _ in range(depth)]
+    node, spine_kinds = None, []
+    for lvl in range(depth - 1, -1, -1):
+        vis = rng.choices([0, 1, 2, 3], [4, 4, 2, 1])[0]
+        last = node is None
+        kind = rng.choices(["func", "module"], [3, 1])[0] if last else rng.choices(["module", "gpumod", "symop"], [8, 2, 1])[0]
+        kids = [] if last else [node]
+        if not last and rng.random() < 0.6:      # decoy: the name of a deeper level, one level too high
+            dn = rng.choice(names[lvl + 1:])
+            if dn != names[lvl + 1]:
+                kids.insert(rng.randrange(2), ["func", dn, rng.choice([0, 1]), []])
+        if rng.random() < 0.3:
+            kids.append(["op", -1, 0, []])
+        regions = [] if (last and kind == "func") else [[kids + ([["term", -1, 0, []]] if kind == "symop" else [])]]
+        node = [kind, names[lvl], vis, regions]
+        spine_kinds.append(kind)
+    top = [node]
+    if rng.random() < 0.5 and names[1] != names[0]:
+        top.insert(0, ["func", names[1], 1, []])
+    tree = ["module", -1, 0, [[top]]]
+    refs = []
+    for lo in range(depth):                      # references along the spine, starting at every level
+        for hi in range(lo + 1, depth + 1):
+            if hi - lo >= 2 or rng.random() < 0.3:
+                refs.append(["ref", names[lo], names[lo + 1:hi]])
+    rng.shuffle(refs)
+    return tree, refs[:6]
+
+
 def verifies(tree):
     from xdsl.utils.exceptions import VerifyException
     root, _, _ = built(json.dumps(tree))
@@ -746,6 +828,26 @@ def run(ctx: Ctx):
             shards += sweep_shards(fixed, shape, LABELS_SMALL, refs, prefixes_of(LABELS_SMALL, 2, root_table))
         sweep_differential(ctx, f"all-trees-4-ops-under-a-module-{len(LABELS_SMALL)}labels", REQ, shards, impl, holds,
                            known, nontrivial)
+    # ---- depth-3+ chains: references of >= 3 components through private / nested / public INTERMEDIATE tables
+    trees, cases = [], []
+    for tree in chain_trees(thorough):
+        trees.append((tree, CHAIN_REFS if thorough else CHAIN_REFS[:3]))
+    for _ in range(120 if thorough else 10):
+        trees.append(gen_spine(rng))
+    inter = 0
+    for ti, (tree, rs) in enumerate(trees):
+        for r in rs:
+            for p in all_paths(tree):
+                cases.append({"ti": ti, "tree": tree, "start": p, "ref": r})
+                inter += private_intermediate(cases[-1])
+    prelude = "\n".join(f"Definition T{i} : op := {coq_tree(t)}." for i, (t, _) in enumerate(trees))
+    differential(ctx, DiffSpec(
+        "deep-chains-private-intermediate", REQ, cases, impl,
+        lambda c: "c29_q {} T{} {} {}".format(coq_bool(fixed), c["ti"], coq_list(coq_Z(i) for i in c["start"]),
+                                              coq_ref(c["ref"])),
+        holds, known, nontrivial, prelude=prelude, shard=450))
+    ctx.coverage["deep_chains"] = {"trees": len(trees), "exhaustive_visibility_trees": len(chain_trees(thorough)),
+                                   "queries_refused_only_by_a_private_intermediate_table": inter}
     # ---- random nested modules
     ntrees = 200 if thorough else 40
     nrefs = 8 if thorough else 4
@@ -771,7 +873,7 @@ def run(ctx: Ctx):
         "random-nested-modules", REQ, cases, impl,
         lambda c: "c29_q {} T{} {} {}".format(coq_bool(fixed), c["ti"], coq_list(coq_Z(i) for i in c["start"]),
                                               coq_ref(c["ref"])),
-        holds, known, nontrivial, prelude=prelude, shard=1500))
+        holds, known, nontrivial, prelude=prelude, shard=700))
     ctx.coverage["random_trees"] = {"trees": ntrees, "unique_names_per_table": uniq, "of_those_verify()": verified,
                                     "ops_per_tree_histogram": {str(k): v for k, v in sorted(sizes.items())},
                                     "op_kinds": kinds}
